@@ -1,27 +1,783 @@
-//! C12 — stub, not built yet.
+//! C12 Codepoint/byte conversion is exact and tuning knobs never change answers.
+//!
+//! Part A (oracle = `char_indices` table): `utf8byte` / `utf8byte_to_charpos` / `text_by_offset` on the
+//! resource and on a sub-selection (unbound `ResultTextSelection` and, when the selection is known,
+//! `ResultItem<TextSelection>`), for every position 0..=len+2 and every byte 0..=bytes+2, under every
+//! knob setting and before/after annotations populated the position index.
+//! Part B (metamorphic): a complete observation (C04-style chain, find_text, related_text,
+//! text_by_offset, known selections, JSON output) is identical under all knob settings, and its
+//! annotation-independent part is identical with and without unrelated annotations inserted first.
 
+use super::c04::{err_name, link_strategy, mode_name, offset_in_mode, oracle_range, resolve_link, slice, stam_offset, text_strategy, Link, MODES};
 use crate::engine::*;
+use crate::rel::{Op, Rel};
 use proptest::prelude::*;
+use serde::{Deserialize, Serialize};
+use stam::*;
+use std::collections::BTreeMap;
 
 pub struct C12;
 
+pub const INTERVALS: [usize; 6] = [100, 0, 1, 2, 3, 7];
+/// no probe of Part B can legitimately return more results than this (texts have <= 64 codepoints, <= 12 annotations);
+/// the bound keeps a broken library that never advances from exhausting memory
+const MAX_RESULTS: usize = 400;
+
+#[derive(Clone, Debug, Serialize, Deserialize)]
+pub struct Case {
+    pub text: String,
+    /// unrelated annotations inserted before the probes (positions as fractions of the text length)
+    pub pre: Vec<(u16, u16)>,
+    /// is the sub-selection itself one of the pre-inserted annotations (so that it is a bound selection)?
+    pub pre_sub: bool,
+    /// the sub-selection
+    pub sub: (u16, u16),
+    /// C04-style chain, run as part of the observation
+    pub links: Vec<Link>,
+    /// needle for find_text: start position (fraction) and length 1..=3 in the text
+    pub needle: (u16, u8),
+}
+
+#[derive(Clone, Copy, Debug, PartialEq)]
+struct Knob {
+    interval: usize,
+    shrink: bool,
+    /// false: store built directly under this configuration; true: built under the default configuration,
+    /// serialised to STAM JSON and loaded again under this configuration
+    reload: bool,
+}
+
+impl Knob {
+    fn config(&self) -> Config {
+        Config::default().with_milestone_interval(self.interval).with_shrink_to_fit(self.shrink)
+    }
+    fn sig(&self) -> String {
+        format!("interval={}|shrink={}|{}", self.interval, self.shrink as u8, if self.reload { "reloaded" } else { "direct" })
+    }
+}
+
+fn knobs() -> Vec<Knob> {
+    let mut v = vec![];
+    for reload in [false, true] {
+        for shrink in [true, false] {
+            for interval in INTERVALS {
+                v.push(Knob { interval, shrink, reload });
+            }
+        }
+    }
+    v
+}
+
+fn range_of(p: (u16, u16), n: usize) -> (usize, usize) {
+    let (a, b) = (pick(p.0, n + 1), pick(p.1, n + 1));
+    if a <= b {
+        (a, b)
+    } else {
+        (b, a)
+    }
+}
+
+/// the store for one knob setting: resource "r" plus (if `with_pre`) the unrelated annotations
+fn build(case: &Case, knob: &Knob, with_pre: bool, n: usize, sub: (usize, usize)) -> Result<AnnotationStore, String> {
+    let cfg = if knob.reload { Config::default() } else { knob.config() };
+    let mut store = AnnotationStore::new(cfg);
+    store
+        .add_resource(TextResourceBuilder::new().with_id("r").with_text(case.text.clone()))
+        .map_err(|e| format!("add_resource: {}", e))?;
+    if with_pre {
+        let mut ranges: Vec<(usize, usize)> = case.pre.iter().map(|p| range_of(*p, n)).collect();
+        if case.pre_sub {
+            ranges.push(sub);
+        }
+        for (i, r) in ranges.iter().enumerate() {
+            store
+                .annotate(
+                    AnnotationBuilder::new()
+                        .with_id(format!("P{}", i))
+                        .with_target(SelectorBuilder::textselector("r", Offset::simple(r.0, r.1)))
+                        .with_data("s", "pre", i as isize),
+                )
+                .map_err(|e| format!("annotate pre {:?}: {}", r, e))?;
+        }
+    }
+    if knob.reload {
+        let json = store.to_json_string(&Config::default()).map_err(|e| format!("to_json_string: {}", e))?;
+        store = AnnotationStore::from_str(&json, knob.config()).map_err(|e| format!("from_str: {}", e))?;
+    } else if knob.shrink {
+        store.shrink_to_fit(true);
+    }
+    Ok(store)
+}
+
+struct Tables {
+    n: usize,
+    nbytes: usize,
+    /// byte offset of codepoint position p, p in 0..=n
+    byte_at: Vec<usize>,
+    /// codepoint position of byte offset b if b is a boundary
+    pos_at: Vec<Option<usize>>,
+}
+
+fn tables(text: &str) -> Tables {
+    let mut byte_at: Vec<usize> = text.char_indices().map(|(b, _)| b).collect();
+    byte_at.push(text.len());
+    let n = byte_at.len() - 1;
+    let mut pos_at = vec![None; text.len() + 1];
+    for (p, b) in byte_at.iter().enumerate() {
+        pos_at[*b] = Some(p);
+    }
+    Tables {
+        n,
+        nbytes: text.len(),
+        byte_at,
+        pos_at,
+    }
+}
+
+/// Part A on one store. `phase` only labels the signature/detail.
+fn conversions(out: &mut Outcome, case: &Case, t: &Tables, chars: &[char], sub: (usize, usize), store: &AnnotationStore, knob: &Knob, phase: &str) {
+    let resource = store.resource("r").expect("resource");
+    let ctx = format!("text={:?} [{}] {}", case.text, knob.sig(), phase);
+    // ---- resource
+    for p in 0..=t.n + 2 {
+        out.checks += 1;
+        let want = if p <= t.n { Some(t.byte_at[p]) } else { None };
+        match catch(|| resource.utf8byte(p).map_err(|e| err_name(&e))) {
+            Err(pi) => out.fail("panic", format!("resource.utf8byte|{}", pi.signature()), format!("{}: resource.utf8byte({}) panicked: {}", ctx, p, pi.msg)),
+            Ok(got) => {
+                if got.as_ref().ok().copied() != want {
+                    let class = if want.is_none() {
+                        "beyond-text-accepted"
+                    } else if got.is_err() {
+                        "refused"
+                    } else {
+                        "wrong"
+                    };
+                    out.fail(
+                        "utf8byte",
+                        format!("resource|{}|interval={}", class, knob.interval),
+                        format!("{}: resource.utf8byte({}) = {:?}, expected {:?}", ctx, p, got, want),
+                    );
+                }
+            }
+        }
+    }
+    for b in 0..=t.nbytes + 2 {
+        out.checks += 1;
+        let want = if b <= t.nbytes { t.pos_at[b] } else { None };
+        match catch(|| resource.utf8byte_to_charpos(b).map_err(|e| err_name(&e))) {
+            Err(pi) => out.fail(
+                "panic",
+                format!("resource.utf8byte_to_charpos|{}", pi.signature()),
+                format!("{}: resource.utf8byte_to_charpos({}) panicked: {}", ctx, b, pi.msg),
+            ),
+            Ok(got) => {
+                if got.as_ref().ok().copied() != want {
+                    let class = if b > t.nbytes {
+                        "beyond-text-accepted"
+                    } else if want.is_none() {
+                        "inside-character-accepted"
+                    } else if got.is_err() {
+                        "refused"
+                    } else {
+                        "wrong"
+                    };
+                    out.fail(
+                        "utf8byte_to_charpos",
+                        format!("resource|{}|interval={}", class, knob.interval),
+                        format!("{}: resource.utf8byte_to_charpos({}) = {:?}, expected {:?}", ctx, b, got, want),
+                    );
+                }
+            }
+        }
+    }
+    // text_by_offset of the sub range in all four modes
+    let want_sub = slice(chars, sub);
+    for (_, m) in MODES {
+        let (b, e) = offset_in_mode(sub, t.n, m);
+        let o = stam_offset(&b, &e);
+        out.checks += 1;
+        match catch(|| resource.text_by_offset(&o).map(|s| s.to_string()).map_err(|e| err_name(&e))) {
+            Err(pi) => out.fail("panic", format!("resource.text_by_offset|{}", pi.signature()), format!("{}: resource.text_by_offset({:?}) panicked: {}", ctx, o, pi.msg)),
+            Ok(got) => {
+                if got.as_deref() != Ok(want_sub.as_str()) {
+                    out.fail(
+                        "text_by_offset",
+                        format!("resource|{}|interval={}", m, knob.interval),
+                        format!("{}: resource.text_by_offset({:?}) = {:?}, expected {:?}", ctx, o, got, want_sub),
+                    );
+                }
+            }
+        }
+    }
+    // ---- sub-selection
+    let sel = match catch(|| resource.textselection(&Offset::simple(sub.0, sub.1))) {
+        Ok(Ok(s)) => s,
+        Ok(Err(e)) => {
+            out.fail("setup", "sub-selection-refused", format!("{}: resource.textselection({:?}) failed: {}", ctx, sub, e));
+            return;
+        }
+        Err(pi) => {
+            out.fail("panic", format!("resource.textselection|{}", pi.signature()), format!("{}: resource.textselection({:?}) panicked: {}", ctx, sub, pi.msg));
+            return;
+        }
+    };
+    let sublen = sub.1 - sub.0;
+    let subbytes = t.byte_at[sub.1] - t.byte_at[sub.0];
+    // the two implementations of Text on selections
+    enum Which<'a> {
+        Fat(&'a ResultTextSelection<'a>),
+        Item(&'a ResultItem<'a, TextSelection>),
+    }
+    let mut impls: Vec<(&'static str, Which)> = vec![("ResultTextSelection", Which::Fat(&sel))];
+    if let ResultTextSelection::Bound(item) = &sel {
+        impls.push(("ResultItem<TextSelection>", Which::Item(item)));
+        out.label("sub.bound");
+    } else {
+        out.label("sub.unbound");
+    }
+    for (name, w) in &impls {
+        for p in 0..=sublen + 2 {
+            out.checks += 1;
+            let want = if p <= sublen { Some(t.byte_at[sub.0 + p] - t.byte_at[sub.0]) } else { None };
+            let got = catch(|| match w {
+                Which::Fat(s) => s.utf8byte(p).map_err(|e| err_name(&e)),
+                Which::Item(s) => s.utf8byte(p).map_err(|e| err_name(&e)),
+            });
+            match got {
+                Err(pi) => out.fail("panic", format!("selection.utf8byte|{}", pi.signature()), format!("{}: {}{:?}.utf8byte({}) panicked: {}", ctx, name, sub, p, pi.msg)),
+                Ok(got) => {
+                    if got.as_ref().ok().copied() != want {
+                        let class = if want.is_none() {
+                            if sub.0 + p <= t.n {
+                                "beyond-selection-accepted"
+                            } else {
+                                "beyond-text-accepted"
+                            }
+                        } else if got.is_err() {
+                            "refused"
+                        } else {
+                            "wrong"
+                        };
+                        out.fail(
+                            "utf8byte",
+                            format!("selection|{}", class),
+                            format!("{}: {}{:?}.utf8byte({}) = {:?}, expected {:?} (relative to the selection)", ctx, name, sub, p, got, want),
+                        );
+                    }
+                }
+            }
+        }
+        for b in 0..=subbytes + 2 {
+            out.checks += 1;
+            let abs = t.byte_at[sub.0] + b;
+            let want = if b <= subbytes { t.pos_at[abs].map(|p| p - sub.0) } else { None };
+            let got = catch(|| match w {
+                Which::Fat(s) => s.utf8byte_to_charpos(b).map_err(|e| err_name(&e)),
+                Which::Item(s) => s.utf8byte_to_charpos(b).map_err(|e| err_name(&e)),
+            });
+            match got {
+                Err(pi) => out.fail(
+                    "panic",
+                    format!("selection.utf8byte_to_charpos|{}", pi.signature()),
+                    format!("{}: {}{:?}.utf8byte_to_charpos({}) panicked: {}", ctx, name, sub, b, pi.msg),
+                ),
+                Ok(got) => {
+                    if got.as_ref().ok().copied() != want {
+                        let class = if b > subbytes {
+                            if abs <= t.nbytes && t.pos_at[abs].is_some() {
+                                "beyond-selection-accepted"
+                            } else {
+                                "beyond-text-accepted"
+                            }
+                        } else if want.is_none() {
+                            "inside-character-accepted"
+                        } else if got.is_err() {
+                            "refused"
+                        } else {
+                            "wrong"
+                        };
+                        out.fail(
+                            "utf8byte_to_charpos",
+                            format!("selection|{}", class),
+                            format!("{}: {}{:?}.utf8byte_to_charpos({}) = {:?}, expected {:?} (relative to the selection)", ctx, name, sub, b, got, want),
+                        );
+                    }
+                }
+            }
+        }
+        // text_by_offset: whole selection, and the first link of the chain resolved against the selection
+        let mut offs: Vec<(Offset, Option<String>)> = vec![(Offset::whole(), Some(want_sub.clone()))];
+        if let Some(l) = case.links.first() {
+            let (cb, ce) = resolve_link(l, sublen);
+            let want = oracle_range(&cb, &ce, sublen).map(|r| slice(chars, (sub.0 + r.0, sub.0 + r.1)));
+            offs.push((stam_offset(&cb, &ce), want));
+        }
+        for (o, want) in offs {
+            out.checks += 1;
+            let got = catch(|| match w {
+                Which::Fat(s) => s.text_by_offset(&o).map(|x| x.to_string()).map_err(|e| err_name(&e)),
+                Which::Item(s) => s.text_by_offset(&o).map(|x| x.to_string()).map_err(|e| err_name(&e)),
+            });
+            match got {
+                Err(pi) => out.fail(
+                    "panic",
+                    format!("selection.text_by_offset|{}", pi.signature()),
+                    format!("{}: {}{:?}.text_by_offset({:?}) panicked: {}", ctx, name, sub, o, pi.msg),
+                ),
+                Ok(got) => {
+                    if got.as_ref().ok() != want.as_ref() {
+                        let class = if want.is_none() {
+                            "accepted"
+                        } else if got.is_err() {
+                            "refused"
+                        } else {
+                            "wrong"
+                        };
+                        out.fail(
+                            "text_by_offset",
+                            format!("selection|{}", class),
+                            format!("{}: {}{:?}.text_by_offset({:?}) = {:?}, expected {:?}", ctx, name, sub, o, got, want),
+                        );
+                    }
+                }
+            }
+        }
+    }
+}
+
+/// one named section of an observation; `indep` = by definition independent of which other annotations exist
+struct Section {
+    name: String,
+    value: String,
+    indep: bool,
+}
+
+fn fmt_sel(t: &ResultTextSelection) -> String {
+    format!("[{},{}){:?}", t.begin(), t.end(), t.text())
+}
+
+/// Part B: run the chain and the probes on `store`, return the observation
+fn observe(case: &Case, store: &mut AnnotationStore, n: usize, sub: (usize, usize), chars: &[char]) -> Vec<Section> {
+    let mut secs: Vec<Section> = vec![];
+    // --- chain (C04 style)
+    let mut parent: Option<(AnnotationHandle, (usize, usize))> = None;
+    let mut chain_ranges: Vec<(usize, usize)> = vec![];
+    let mut accepted: Vec<AnnotationHandle> = vec![];
+    for (i, link) in case.links.iter().enumerate() {
+        let prange = parent.map(|p| p.1).unwrap_or((0, n));
+        let plen = prange.1 - prange.0;
+        let (cb, ce) = resolve_link(link, plen);
+        let offset = stam_offset(&cb, &ce);
+        let selector = match parent {
+            Some((h, _)) => SelectorBuilder::annotationselector(h, Some(offset.clone())),
+            None => SelectorBuilder::textselector("r", offset.clone()),
+        };
+        let builder = AnnotationBuilder::new()
+            .with_id(format!("A{}", i))
+            .with_target(selector)
+            .with_data("s", "k", i as isize);
+        let res = catch(|| store.annotate(builder));
+        let value = match res {
+            Err(pi) => format!("panic:{}", pi.signature()),
+            Ok(Err(e)) => format!("err:{}", err_name(&e)),
+            Ok(Ok(h)) => {
+                // trust the oracle for the chain structure, the library for the content
+                if let Some(r) = oracle_range(&cb, &ce, plen) {
+                    let abs = (prange.0 + r.0, prange.0 + r.1);
+                    parent = Some((h, abs));
+                    chain_ranges.push(abs);
+                }
+                accepted.push(h);
+                "ok".to_string()
+            }
+        };
+        secs.push(Section {
+            name: format!("chain.annotate#{}", i),
+            value,
+            indep: true,
+        });
+    }
+    {
+        let store = &*store;
+        for (i, h) in accepted.iter().enumerate() {
+            let v = catch(|| {
+                let a = store.annotation(*h).expect("annotation");
+                let mut s = String::new();
+                s.push_str(&format!("text={:?};", a.text().collect::<Vec<_>>()));
+                s.push_str(&format!("simple={:?};", a.text_simple()));
+                s.push_str(&format!("tsel={:?};", a.textselections().map(|t| fmt_sel(&t)).collect::<Vec<_>>()));
+                let sel = a.as_ref().target();
+                s.push_str(&format!("offset={:?};", sel.offset(store)));
+                for (m, mname) in MODES {
+                    s.push_str(&format!("{}={:?};", mname, sel.offset_with_mode(store, Some(m))));
+                }
+                s
+            });
+            secs.push(Section {
+                name: format!("chain.annotation#{}", i),
+                value: v.unwrap_or_else(|pi| format!("panic:{}", pi.signature())),
+                indep: true,
+            });
+        }
+        let resource = store.resource("r").expect("resource");
+        // --- find_text
+        let needle: String = if n == 0 {
+            "a".to_string()
+        } else {
+            let start = pick(case.needle.0, n);
+            let len = (case.needle.1 as usize % 3) + 1;
+            chars[start..(start + len).min(n)].iter().collect()
+        };
+        let v = catch(|| resource.find_text(&needle).take(MAX_RESULTS).map(|t| fmt_sel(&t)).collect::<Vec<_>>());
+        secs.push(Section {
+            name: "find_text.resource".into(),
+            value: v.map(|x| format!("{:?}", x)).unwrap_or_else(|pi| format!("panic:{}", pi.signature())),
+            indep: true,
+        });
+        let subsel = catch(|| resource.textselection(&Offset::simple(sub.0, sub.1)));
+        if let Ok(Ok(subsel)) = subsel {
+            let v = catch(|| subsel.find_text(&needle).take(MAX_RESULTS).map(|t| fmt_sel(&t)).collect::<Vec<_>>());
+            secs.push(Section {
+                name: "find_text.selection".into(),
+                value: v.map(|x| format!("{:?}", x)).unwrap_or_else(|pi| format!("panic:{}", pi.signature())),
+                indep: true,
+            });
+            // --- text_by_offset / textselection on the selection for every link offset
+            for (i, l) in case.links.iter().enumerate() {
+                let (cb, ce) = resolve_link(l, sub.1 - sub.0);
+                let o = stam_offset(&cb, &ce);
+                let v =
+                    catch(|| format!("{:?} / {:?}", subsel.text_by_offset(&o).map_err(|e| err_name(&e)), subsel.textselection(&o).map(|t| fmt_sel(&t)).map_err(|e| err_name(&e))));
+                secs.push(Section {
+                    name: format!("selection.offset#{}", i),
+                    value: v.unwrap_or_else(|pi| format!("panic:{}", pi.signature())),
+                    indep: true,
+                });
+                let (cb, ce) = resolve_link(l, n);
+                let o = stam_offset(&cb, &ce);
+                let v = catch(|| {
+                    format!(
+                        "{:?} / {:?}",
+                        resource.text_by_offset(&o).map_err(|e| err_name(&e)),
+                        resource.textselection(&o).map(|t| fmt_sel(&t)).map_err(|e| err_name(&e))
+                    )
+                });
+                secs.push(Section {
+                    name: format!("resource.offset#{}", i),
+                    value: v.unwrap_or_else(|pi| format!("panic:{}", pi.signature())),
+                    indep: true,
+                });
+            }
+            // --- related_text from the sub-selection: complete, and restricted to the chain's ranges
+            for rel in [
+                Rel::Equals,
+                Rel::Overlaps,
+                Rel::Embeds,
+                Rel::Embedded,
+                Rel::Before,
+                Rel::After,
+                Rel::Precedes,
+                Rel::Succeeds,
+                Rel::SameBegin,
+                Rel::SameEnd,
+            ] {
+                let op = Op::new(rel);
+                let v = catch(|| {
+                    subsel
+                        .related_text(op.to_stam())
+                        .take(MAX_RESULTS)
+                        .map(|t| (t.begin(), t.end()))
+                        .collect::<Vec<_>>()
+                });
+                match v {
+                    Ok(list) => {
+                        secs.push(Section {
+                            name: format!("related_text.{:?}", rel),
+                            value: format!("{:?}", list),
+                            indep: false,
+                        });
+                        // the order among selections with the same begin is the order of first insertion (undocumented),
+                        // which an unrelated annotation on the same range changes: compare as a sorted list
+                        let mut filtered: Vec<_> = list.iter().filter(|r| chain_ranges.contains(r)).collect();
+                        filtered.sort();
+                        secs.push(Section {
+                            name: format!("related_text.chain-only.{:?}", rel),
+                            value: format!("{:?}", filtered),
+                            indep: true,
+                        });
+                    }
+                    Err(pi) => secs.push(Section {
+                        name: format!("related_text.{:?}", rel),
+                        value: format!("panic:{}", pi.signature()),
+                        indep: false,
+                    }),
+                }
+            }
+        }
+        // --- all known selections, in textual order
+        let v = catch(|| resource.textselections().take(MAX_RESULTS).map(|t| (t.begin(), t.end())).collect::<Vec<_>>());
+        secs.push(Section {
+            name: "resource.textselections".into(),
+            value: v.map(|x| format!("{:?}", x)).unwrap_or_else(|pi| format!("panic:{}", pi.signature())),
+            indep: false,
+        });
+        // --- reverse index: which annotations are on each known selection
+        let v = catch(|| {
+            resource
+                .textselections()
+                .take(MAX_RESULTS)
+                .map(|t| {
+                    let ids: Vec<String> = t.annotations().map(|a| a.id().unwrap_or("?").to_string()).collect();
+                    format!("[{},{})={:?}", t.begin(), t.end(), ids)
+                })
+                .collect::<Vec<_>>()
+        });
+        secs.push(Section {
+            name: "textselection.annotations".into(),
+            value: v.map(|x| format!("{:?}", x)).unwrap_or_else(|pi| format!("panic:{}", pi.signature())),
+            indep: false,
+        });
+        // --- serialisation
+        let v = catch(|| store.to_json_string(&Config::default()).map_err(|e| err_name(&e)));
+        secs.push(Section {
+            name: "json".into(),
+            value: v.map(|x| format!("{:?}", x)).unwrap_or_else(|pi| format!("panic:{}", pi.signature())),
+            indep: false,
+        });
+    }
+    secs
+}
+
 impl Property for C12 {
-    type Case = u8;
+    type Case = Case;
     fn id(&self) -> &'static str {
         "C12"
     }
     fn rule(&self) -> String {
-        "not built yet".into()
+        "case = text of 0-64 codepoints over 1-4 byte characters, 0-8 unrelated annotations, a sub-selection (optionally itself annotated, so both Text implementations for selections are reached), a C04-style chain of 1-3 offsets and a needle. Every case is run under 24 knob settings (milestone interval {100,0,1,2,3,7} x shrink_to_fit {on,off} x {store built directly under the configuration, store serialised to JSON and loaded under the configuration}), each without and with the unrelated annotations. Part A: utf8byte for every position 0..=len+2 and utf8byte_to_charpos for every byte 0..=bytes+2 on the resource and (relative) on the sub-selection, plus text_by_offset, before and after the chain's annotations populated the position index, against a char_indices table. Part B: the complete observation (chain annotate results, texts, reported offsets in all modes, find_text on resource and selection, text_by_offset/textselection, related_text for 10 relations, all known selections, JSON output) must be identical under all 24 settings; its annotation-independent part must be identical with and without the unrelated annotations. Non-trivial = multi-byte text longer than 7 codepoints (so longer than every interval but 100) with >= 1 unrelated annotation; distinct = distinct case JSON.".into()
     }
-    fn cases(&self, _tier: Tier) -> u64 {
-        0
+    fn assumptions(&self) -> Vec<String> {
+        vec![
+            "Config::shrink_to_fit is only consulted by the loaders; 'on' for a directly built store means AnnotationStore::shrink_to_fit(true) is called after set-up".into(),
+            "CBOR reload is left to C11; milestone interval 100 is reached by position only for texts of 0-64 codepoints (no milestone is ever placed), exactly like the default configuration".into(),
+            "related_text / textselections() / JSON naturally depend on which annotations exist: across the with/without-annotations comparison only find_text, offsets, chain results and related_text restricted to the chain's own ranges are compared".into(),
+            "a panic inside a Part B probe is recorded as the probe's value (it must then occur under every setting); only Part A treats a panic as a failure by itself".into(),
+        ]
     }
-    fn strategy(&self, _tier: Tier) -> BoxedStrategy<u8> {
-        any::<u8>().boxed()
+    fn cases(&self, tier: Tier) -> u64 {
+        tier.pick(12_000, 400_000)
     }
-    fn run(&self, _case: &u8) -> Outcome {
-        let mut o = Outcome::new();
-        o.skip("not built");
-        o
+    fn strategy(&self, _tier: Tier) -> BoxedStrategy<Case> {
+        (
+            text_strategy(64),
+            proptest::collection::vec((any::<u16>(), any::<u16>()), 0..=8),
+            any::<bool>(),
+            (prop_oneof![5 => any::<u16>(), 1 => Just(0u16)], prop_oneof![5 => any::<u16>(), 1 => Just(u16::MAX)]),
+            proptest::collection::vec(link_strategy(), 1..=3),
+            (any::<u16>(), 0u8..3),
+        )
+            .prop_map(|(text, pre, pre_sub, sub, links, needle)| Case {
+                text,
+                pre,
+                pre_sub,
+                sub,
+                links,
+                needle,
+            })
+            .boxed()
+    }
+    fn health(&self, labels: &BTreeMap<String, u64>, evals: u64) -> Vec<String> {
+        let mut v = vec![];
+        if evals < 2000 {
+            return v;
+        }
+        let frac = |l: &str| labels.get(l).copied().unwrap_or(0) as f64 / evals as f64;
+        for (l, min) in [
+            ("multibyte", 0.5),
+            ("len>7", 0.5),
+            ("pre-annotations", 0.7),
+            ("sub.bound", 0.3),
+            ("sub.unbound", 0.5),
+            ("sub.begin>0", 0.5),
+            ("sub.multibyte", 0.3),
+            ("chain.depth>=2", 0.2),
+        ] {
+            if frac(l) < min {
+                v.push(format!("label {} occurs in {:.2}% of cases, expected >= {:.0}%", l, frac(l) * 100.0, min * 100.0));
+            }
+        }
+        v
+    }
+
+    fn run(&self, case: &Case) -> Outcome {
+        let mut out = Outcome::new();
+        if case.links.is_empty() || case.links.len() > 6 || case.pre.len() > 32 {
+            out.skip("invalid case");
+            return out;
+        }
+        let chars: Vec<char> = case.text.chars().collect();
+        let t = tables(&case.text);
+        let n = t.n;
+        let sub = range_of(case.sub, n);
+        let multibyte = t.nbytes != n;
+        if multibyte {
+            out.label("multibyte");
+        }
+        if n > 7 {
+            out.label("len>7");
+        }
+        if n == 0 {
+            out.label("empty-text");
+        }
+        if !case.pre.is_empty() || case.pre_sub {
+            out.label("pre-annotations");
+        }
+        if sub.0 > 0 {
+            out.label("sub.begin>0");
+        }
+        if t.byte_at[sub.1] - t.byte_at[sub.0] != sub.1 - sub.0 {
+            out.label("sub.multibyte");
+        }
+        if sub.0 == sub.1 {
+            out.label("sub.zero-width");
+        }
+        // how deep does the chain get (oracle only)
+        {
+            let mut parent = (0usize, n);
+            let mut depth = 0;
+            for l in &case.links {
+                let plen = parent.1 - parent.0;
+                let (cb, ce) = resolve_link(l, plen);
+                if let Some(r) = oracle_range(&cb, &ce, plen) {
+                    parent = (parent.0 + r.0, parent.0 + r.1);
+                    depth += 1;
+                } else {
+                    out.label("chain.rejected");
+                }
+                if mode_name(&cb, &ce) != "BB" {
+                    out.label("chain.end-aligned");
+                }
+            }
+            if depth >= 2 {
+                out.label("chain.depth>=2");
+            }
+        }
+
+        let mut reference: [Option<(Knob, Vec<Section>)>; 2] = [None, None];
+        for with_pre in [false, true] {
+            for knob in knobs() {
+                let built = catch(|| build(case, &knob, with_pre, n, sub));
+                let mut store = match built {
+                    Ok(Ok(s)) => s,
+                    Ok(Err(e)) => {
+                        out.fail(
+                            "setup",
+                            format!("build|{}", if knob.reload { "reloaded" } else { "direct" }),
+                            format!("text={:?} [{}] pre={}: {}", case.text, knob.sig(), with_pre, e),
+                        );
+                        continue;
+                    }
+                    Err(pi) => {
+                        out.fail(
+                            "panic",
+                            format!("build|{}", pi.signature()),
+                            format!("text={:?} [{}] pre={}: set-up panicked at {}:{}: {}", case.text, knob.sig(), with_pre, pi.file, pi.line, pi.msg),
+                        );
+                        continue;
+                    }
+                };
+                let nfail = out.failures.len();
+                conversions(&mut out, case, &t, &chars, sub, &store, &knob, if with_pre { "after unrelated annotations" } else { "fresh resource" });
+                if out.failures.len() > nfail {
+                    // positions do not convert correctly in this store: searching it may not even terminate
+                    out.label("partB-skipped");
+                    continue;
+                }
+                let obs = observe(case, &mut store, n, sub, &chars);
+                conversions(&mut out, case, &t, &chars, sub, &store, &knob, if with_pre { "after unrelated annotations and the chain" } else { "after the chain" });
+                let slot = with_pre as usize;
+                match &reference[slot] {
+                    None => reference[slot] = Some((knob, obs)),
+                    Some((k0, ref_obs)) => {
+                        out.checks += 1;
+                        if ref_obs.len() != obs.len() {
+                            out.fail(
+                                "metamorphic.knob",
+                                format!("shape|{}", knob.sig()),
+                                format!(
+                                    "text={:?} pre={}: the observation has {} sections under [{}] but {} under [{}]",
+                                    case.text,
+                                    with_pre,
+                                    ref_obs.len(),
+                                    k0.sig(),
+                                    obs.len(),
+                                    knob.sig()
+                                ),
+                            );
+                        }
+                        for (a, b) in ref_obs.iter().zip(obs.iter()) {
+                            out.checks += 1;
+                            if a.name != b.name || a.value != b.value {
+                                let sec = a.name.split(|c| c == '#').next().unwrap_or("").to_string();
+                                out.fail(
+                                    "metamorphic.knob",
+                                    format!("{}|{}", sec, knob.sig()),
+                                    format!(
+                                        "text={:?} pre={} sub={:?}: {} differs: under [{}] {} = {} but under [{}] {} = {}",
+                                        case.text,
+                                        with_pre,
+                                        sub,
+                                        a.name,
+                                        k0.sig(),
+                                        a.name,
+                                        a.value,
+                                        knob.sig(),
+                                        b.name,
+                                        b.value
+                                    ),
+                                );
+                            }
+                        }
+                    }
+                }
+            }
+        }
+        // with vs without unrelated annotations: the annotation-independent sections
+        if let (Some((k0, a)), Some((_, b))) = (&reference[0], &reference[1]) {
+            let ia: Vec<&Section> = a.iter().filter(|s| s.indep).collect();
+            let ib: Vec<&Section> = b.iter().filter(|s| s.indep).collect();
+            out.checks += 1;
+            if ia.len() != ib.len() {
+                out.fail(
+                    "metamorphic.annotations",
+                    "shape",
+                    format!("text={:?}: {} annotation-independent sections without, {} with unrelated annotations [{}]", case.text, ia.len(), ib.len(), k0.sig()),
+                );
+            }
+            for (x, y) in ia.iter().zip(ib.iter()) {
+                out.checks += 1;
+                if x.name != y.name || x.value != y.value {
+                    let sec = x.name.split(|c| c == '#').next().unwrap_or("").to_string();
+                    out.fail(
+                        "metamorphic.annotations",
+                        sec,
+                        format!(
+                            "text={:?} sub={:?} pre={:?}: {} = {} on a fresh resource but {} = {} after unrelated annotations were added first [{}]",
+                            case.text,
+                            sub,
+                            case.pre.iter().map(|p| range_of(*p, n)).collect::<Vec<_>>(),
+                            x.name,
+                            x.value,
+                            y.name,
+                            y.value,
+                            k0.sig()
+                        ),
+                    );
+                }
+            }
+        }
+        out.nontrivial = multibyte && n > 7 && (!case.pre.is_empty() || case.pre_sub);
+        out
     }
 }
